@@ -214,6 +214,20 @@ fn in_process_case(cx: &mut CaseCtx, input: Input, cfg: &GenCfg) -> CaseResult {
         compare_outcomes(&base, &o, "source-reference-assignment", &src)?;
         cx.label("reference-assignment-tried");
     }
+    // (4) one file listed twice: next to itself, or with the other files in between
+    if n >= 2 && n <= 4 {
+        let k = pick(&mut u, n);
+        let rest: Vec<String> = (0..n).filter(|i| *i != k).map(|i| names[i].clone()).collect();
+        let twice_adjacent: Vec<String> = [vec![names[k].clone(), names[k].clone()], rest.clone()].concat();
+        let twice_apart: Vec<String> = [vec![names[k].clone()], rest.clone(), vec![names[k].clone()]].concat();
+        let twice_last: Vec<String> = [rest, vec![names[k].clone(), names[k].clone()]].concat();
+        let b2 = run_in_process(&twice_adjacent, &[]);
+        for order in [twice_apart, twice_last] {
+            let o = run_in_process(&order, &[]);
+            compare_outcomes(&b2, &o, "file-order-with-a-file-listed-twice", &src)?;
+        }
+        cx.label("file-listed-twice");
+    }
     Ok(())
 }
 
@@ -442,7 +456,7 @@ impl Check for C15 {
         "C15"
     }
     fn rule(&self) -> String {
-        "families: in-process = proptest choice sequences -> multi-file programs (1..4 files, cross-file and cross-module references, aliases, inheritance, re-opened modules; valid, with warnings, or with one injected error) written to real files and compiled with compile_from_options in every permutation of the files and every source/reference assignment: acceptance, per-path observed content and the multiset of warnings (code, level, message, span) must not change; collisions = 34 templates (same definition in two files, definition vs nested module of another file, enumerator / field / operation / parameter / return member vs module of another file, preprocessor symbols defined in one file and tested in another, containment cycles spread over files and used from outside; each with and without a variation) in every order and every source/reference assignment; binary = the same argv (one generator with five arguments; now and then an extra module-less file at a drawn position) twice in fresh processes (byte-identical stdout, stderr, exit status, generator request) plus one random permutation and reference assignment (acceptance and per-path decoded request content). Non-trivial = >= 2 files".into()
+        "families: in-process = proptest choice sequences -> multi-file programs (1..4 files, cross-file and cross-module references, aliases, inheritance, re-opened modules; valid, with warnings, or with one injected error) written to real files and compiled with compile_from_options in every permutation of the files and every source/reference assignment: acceptance, per-path observed content and the multiset of warnings (code, level, message, span) must not change, also when one file is listed twice (adjacent or apart); collisions = 34 templates (same definition in two files, definition vs nested module of another file, enumerator / field / operation / parameter / return member vs module of another file, preprocessor symbols defined in one file and tested in another, containment cycles spread over files and used from outside; each with and without a variation) in every order and every source/reference assignment; binary = the same argv (one generator with five arguments; now and then an extra module-less file at a drawn position) twice in fresh processes (byte-identical stdout, stderr, exit status, generator request) plus one random permutation and reference assignment (acceptance and per-path decoded request content). Non-trivial = >= 2 files".into()
     }
     fn assumptions(&self) -> Vec<String> {
         vec!["only the order of files and of reports may change; error diagnostics of rejected programs are not compared across arrangements (only that they are rejected)".into()]
